@@ -813,7 +813,19 @@ Definition cs_after_sub (r : csyn * list Z) (its : list CharClass.item) : pr (cs
 (* 1855-1907: the character ch (translated = came from an escape) at cursor q *)
 Definition cs_generic (ch : Z) (translated : bool) (q : list Z) (items : list CharClass.item) : pr (csyn * list Z) :=
   if inrange then
-    if so then cs_next q chprev false items sub
+    if so then
+      (* scan-only (countCaptures): a subtraction written where a range was expected, [a-[b]], is skipped as a
+         unit, its error dropped like in the "-[" branch below (since a5090c5; before that fix the pre-scan went on
+         inside the subtracted class and closed the outer class at its first ']': `(?n:[a-[](]])(b)`) *)
+      if (ch =? 91) && negb translated && negb first then
+        match cs_nested true q with
+        | POk (_, q3) => cs_next q3 chprev false items sub
+        | PE _ q3 => cs_next q3 chprev false items sub
+        | PO => PO
+        | PC w => PC w
+        | PF => PF
+        end
+      else cs_next q chprev false items sub
     else if (ch =? 91) && negb translated && negb first then
       pdo r <- cs_nested false q ; cs_after_sub r (IRange chprev chprev :: items)
     else if ch <? chprev then PE PE_ReversedCharRange q
@@ -1197,7 +1209,16 @@ Definition group_name (tb : captab) (mco : bool) (v : gvars) (close : Z) (cur : 
           (if is_digit ch then
              pdo r <- decimal cur ;
              let '(n, q) := r in
-             let capnum := if ct_slot tb n then n else -1 in
+             (* since 2b27550: under MaintainCaptureOrder the digits are the NAME the pre-scan filed them under
+                (countCaptures 432-435), numbered in pattern order; before, the main pass read them as a group
+                number and `(?<2>x)(?P<2>y)(?<2>z)(w)` under RE2 made a Capture outside the table *)
+             (* `ch != '0'` since 5afce6b: countCaptures does not file digits that start with '0' (424), and the name
+                Itoa(n) could be the one assignOrderedNameSlots generated for a later plain group:
+                `(?<x>q)(?<02>b)(a)` under RE2 consumed the automatic number 2 and made (a) Capture 3 *)
+             let capnum := if mco && negb (n =? 0)
+                           then (if ch =? 48 then -1
+                                 else match ct_name tb (itoa n) with Some g => g | None => -1 end)
+                           else if ct_slot tb n then n else -1 in
              if hd_is_not q close && hd_is_not q 45 then PE PE_InvalidGroupName q
              else if capnum =? 0 then PE PE_CapNumNotZero q
              else POk (capnum, false, q)
@@ -1508,7 +1529,8 @@ Definition add_run (st : mst) (run : list Z) (isq : bool) : pr mst :=
 (* "(" (594-615); p3 = the pattern after it *)
 Definition round_open (tb : captab) (mco : bool) (st1 : mst) (p3 : list Z) : pr (mst * option (list Z * bool)) :=
   let o := ms_o st1 in
-  if useRE2 o && hd_is p3 63 && nth_is 1 p3 80 && nth_is 2 p3 61 then
+  (* `!p.ignoreNextParen` since 4f8aca1: the parenthesis that is the condition of (?( ... ) goes to scanGroupOpen *)
+  if useRE2 o && negb (ms_ign st1) && hd_is p3 63 && nth_is 1 p3 80 && nth_is 2 p3 61 then
     pdo r <- python_backref tb o (skipn 3 p3) ;
     let '(x, q) := r in
     pdo r2 <- after_unit (set_unit st1 (Some x)) q ;
